@@ -24,6 +24,44 @@ REQM = ['GET', 'POST', 'DELETE']     # DELETE is admitted by no method-restricte
 PREFIXES = ['/p', '/q/', '/', '/p/r']
 
 
+TRACE = []
+_TRACERS = {}
+
+
+def tracer(mwid):
+    """a middleware (own type per id) that records its id whenever its request function runs"""
+    from clastic import Middleware
+    if mwid not in _TRACERS:
+        def request(next, _id=mwid):
+            TRACE.append(_id)
+            return next()
+        cls = type('C11MW_' + mwid.replace('.', '_'), (Middleware,), {})
+        _TRACERS[mwid] = (cls, request)
+    cls, request = _TRACERS[mwid]
+    inst = cls()
+    inst.request = request
+    return inst
+
+
+def expected_trace(table, path, method, app_mw):
+    """ids of the middlewares that run for this request: the chain of every route that is executed, in order; the
+    catch-all route (application-level middlewares only) when nothing answers"""
+    m = method.upper()
+    path = M.seen_path(path)
+    out = []
+    for e in table:
+        if not U.match(e.parsed, e.mode, path):
+            continue
+        if e.mset is not None and m not in e.mset:
+            continue
+        if e.parsed[1] and e.mode == U.REDIRECT and U.normalize(path, True) != path:
+            return out
+        out += e.chain
+        if M.BEHAVIOURS[e.beh][1] or e.beh == 'answer':
+            return out
+    return out + ([app_mw] if app_mw else [])
+
+
 class Sim(object):
     def __init__(self, ctx):
         self.ctx = ctx
@@ -70,7 +108,12 @@ class Sim(object):
     def request(self, i, path, method, count=True):
         a = self.apps[i]
         exp = M.dispatch(a['table'], path, method)
+        del TRACE[:]
         r = call(a['app'], path, method)
+        want_trace = expected_trace(a['table'], path, method, a.get('mw'))
+        if list(TRACE) != want_trace and r.exc is None:
+            self.ctx.mismatch('middleware-chain-changed', '%s %s on application #%d ran middlewares %r, model %r'
+                              % (method, path, i, list(TRACE), want_trace))
         self.ctx.requests += 1
         what = '%s %s on application #%d' % (method, path, i)
         if r.exc is not None:
@@ -90,8 +133,10 @@ class Sim(object):
             if a['failed_add']:
                 self.interesting = True
 
-    def entry(self, rid, pattern, methods, beh, mode):
-        return M.Entry(rid, pattern, methods, beh, mode)
+    def entry(self, rid, pattern, methods, beh, mode, chain=()):
+        e = M.Entry(rid, pattern, methods, beh, mode)
+        e.chain = list(chain)
+        return e
 
     def idx(self, i, index):
         # passed through as given: add(entry, index) has list.insert semantics (negative and past-the-end indices are legal)
@@ -134,17 +179,21 @@ class Sim(object):
         k = op[0]
         ctx = self.ctx
         if k == 'new_app':
-            _, mode, clash = op
-            app = Application(slash_mode=mode, resources={'clash': 'c'} if clash else {})
-            self.apps.append({'app': app, 'table': [], 'mode': mode, 'clash': clash, 'requested': False, 'failed_add': False})
+            _, mode, clash = op[:3]
+            has_mw = bool(op[3]) if len(op) > 3 else False
+            mwid = 'A%d' % len(self.apps) if has_mw else None
+            app = Application(slash_mode=mode, resources={'clash': 'c'} if clash else {}, middlewares=[tracer(mwid)] if mwid else [])
+            self.apps.append({'app': app, 'table': [], 'mode': mode, 'clash': clash, 'requested': False, 'failed_add': False, 'mw': mwid})
         elif k == 'new_route':
             _, pattern, methods, beh = op[:4]
             needs = bool(op[4]) if len(op) > 4 else False
+            route_mw = bool(op[5]) if len(op) > 5 else False
             rid = self.rid()
-            # some routes have an endpoint that requires the resource only some applications define
-            route = Route(pattern, M.make_endpoint(rid, beh, names=('clash',) if needs else ()), methods=methods)
+            # some routes have an endpoint that requires the resource only some applications define; some carry a middleware
+            route = Route(pattern, M.make_endpoint(rid, beh, names=('clash',) if needs else ()), methods=methods,
+                          middlewares=[tracer('R%d' % rid)] if route_mw else [])
             self.routes.append({'route': route, 'snap': self.snapshot(route), 'rid': rid, 'pattern': pattern, 'methods': methods,
-                                'beh': beh, 'bound_in': set(), 'needs': needs})
+                                'beh': beh, 'bound_in': set(), 'needs': needs, 'mw': 'R%d' % rid if route_mw else None})
         elif not self.apps:
             return
         elif k == 'add_route':
@@ -171,7 +220,8 @@ class Sim(object):
                 self.apps[i]['app'].add(r['route'])
             else:
                 self.apps[i]['app'].add(r['route'], index)
-            self.insert(i, index, [self.entry(r['rid'], r['pattern'], r['methods'], r['beh'], self.apps[i]['mode'])])
+            chain = ([self.apps[i]['mw']] if self.apps[i].get('mw') else []) + ([r['mw']] if r.get('mw') else [])
+            self.insert(i, index, [self.entry(r['rid'], r['pattern'], r['methods'], r['beh'], self.apps[i]['mode'], chain)])
             r['bound_in'].add(i)
             if len(r['bound_in']) >= 2:
                 self.interesting = True
@@ -185,7 +235,7 @@ class Sim(object):
                 self.apps[i]['app'].add(entry)
             else:
                 self.apps[i]['app'].add(entry, index)
-            self.insert(i, index, [self.entry(rid, pattern, None, beh, self.apps[i]['mode'])])
+            self.insert(i, index, [self.entry(rid, pattern, None, beh, self.apps[i]['mode'], [self.apps[i]['mw']] if self.apps[i].get('mw') else [])])
         elif k == 'add_failing':
             _, ai, kind, index = op
             i = ai % len(self.apps)
@@ -244,7 +294,10 @@ class Sim(object):
             else:
                 self.apps[b]['app'].add(entry, index)
             pfx = prefix.rstrip('/')
-            self.insert(b, index, [self.entry(e.rid, pfx + e.pattern, e.methods, e.beh, self.apps[b]['mode']) for e in self.apps[a]['table']])
+            outer = [self.apps[b]['mw']] if self.apps[b].get('mw') else []
+            self.insert(b, index, [self.entry(e.rid, pfx + e.pattern, e.methods, e.beh, self.apps[b]['mode'],
+                                              outer + [m for m in e.chain if m not in outer])   # unique by type: kept once, outermost
+                                   for e in self.apps[a]['table']])
             if self.apps[a]['requested']:
                 self.interesting = True
         elif k == 'embed_failing':
@@ -259,7 +312,7 @@ class Sim(object):
                 if j == kpos % (n_good + 1):
                     routes.append(Route('/bad/<clash>', M.make_endpoint(rid, 'answer', names=('clash',))))
                 else:
-                    routes.append(Route('/g%d' % j, M.make_endpoint(rid, 'answer')))
+                    routes.append(Route('/g%d' % j, M.make_endpoint(rid, 'answer'), middlewares=[tracer('G%d' % rid)]))
             inner = Application(routes)      # fine on its own: only the embedding application defines `clash`
             try:
                 if index is None:
@@ -306,19 +359,20 @@ def machine():
             self.ctx.current = self.steps
             self.sim.step(op)
 
-        @initialize(mode=st.sampled_from(list(U.MODES)), clash=st.booleans())
-        def first_app(self, mode, clash):
-            self.do(['new_app', mode, clash])
+        @initialize(mode=st.sampled_from(list(U.MODES)), clash=st.booleans(), mw=st.booleans())
+        def first_app(self, mode, clash, mw):
+            self.do(['new_app', mode, clash, mw])
 
-        @rule(mode=st.sampled_from(list(U.MODES)), clash=st.booleans())
-        def new_app(self, mode, clash):
+        @rule(mode=st.sampled_from(list(U.MODES)), clash=st.booleans(), mw=st.booleans())
+        def new_app(self, mode, clash, mw):
             if len(self.sim.apps) < 4:
-                self.do(['new_app', mode, clash])
+                self.do(['new_app', mode, clash, mw])
 
-        @rule(pattern=st.sampled_from(PATTERNS), methods=st.sampled_from(METHODS), beh=st.sampled_from(BEH), needs=st.sampled_from([False, False, True]))
-        def new_route(self, pattern, methods, beh, needs):
+        @rule(pattern=st.sampled_from(PATTERNS), methods=st.sampled_from(METHODS), beh=st.sampled_from(BEH), needs=st.sampled_from([False, False, True]),
+              mw=st.booleans())
+        def new_route(self, pattern, methods, beh, needs, mw):
             if len(self.sim.routes) < 6:
-                self.do(['new_route', pattern, methods, beh, needs])
+                self.do(['new_route', pattern, methods, beh, needs, mw])
 
         @rule(ai=st.integers(0, 3), ri=st.integers(0, 5), index=index)
         def add_route(self, ai, ri, index):
